@@ -260,6 +260,20 @@ def execute(case):
                 sig,
                 'get_config raised %r on\n%s' % (e, text)))
             return viols, True, ['raised']
+        if dict(os.environ) != environ:
+            changed = sorted(
+                kk for kk in set(os.environ) | set(environ)
+                if os.environ.get(kk) != environ.get(kk))
+            viols.append(Violation(
+                'C16:parse-changed-process-environment',
+                'get_config changed the daemon\'s own environment: %r '
+                '(a later parse, or a copy_env watcher, now sees values '
+                'that are in no file)' % changed[:6]))
+            for kk in changed:
+                if kk in environ:
+                    os.environ[kk] = environ[kk]
+                else:
+                    os.environ.pop(kk, None)
         cfg2 = get_config(path)
         if cfg != cfg2:
             viols.append(Violation('C16:not-deterministic',
